@@ -224,11 +224,14 @@ fn tail(path: &Path, n: usize) -> String {
     lines[start..].join("\n")
 }
 
+static WORKDIR_SEQ: std::sync::atomic::AtomicUsize = std::sync::atomic::AtomicUsize::new(0);
+
 pub fn make_workdir(tag: &str) -> PathBuf {
+    let n = WORKDIR_SEQ.fetch_add(1, std::sync::atomic::Ordering::SeqCst);
     let d = verif_root()
         .join(".build")
         .join("work")
-        .join(format!("{tag}-{}", std::process::id()));
+        .join(format!("{tag}-{}-{n}", std::process::id()));
     let _ = std::fs::remove_dir_all(&d);
     std::fs::create_dir_all(&d).expect("create workdir");
     d
